@@ -183,6 +183,12 @@ func (c *c05Case) buildSegment(api, encoder string, nfrags int, extras bool) (ou
 				}
 			}
 		}
+		// a track id the fragment does not have: the call must refuse, not put the sample into another track
+		if api == "fullToTrack" || api == "metaToTrack" {
+			if err := frag.AddSampleToTrack(mp4.Sample{Flags: 0x02000000, Dur: 1, Size: 0}, 9999, 0); err == nil {
+				return nil, fmt.Errorf("AddSampleToTrack accepts a sample for track 9999, which the fragment does not have")
+			}
+		}
 		first := uint64(c.Hist[0].Dts + shift[c.Hist[0].T])
 		if api == "samples" || api == "interval" {
 			// two batches when there are at least two samples, through the SAME scratch slice
